@@ -1,9 +1,10 @@
 ---------------------------- MODULE MC_Handshake ----------------------------
 EXTENDS Handshake, TLC, Json
 ASSUME Auth
-(* T2 table: every message class against every endpoint kind, with the specification's verdict *)
+(* T2 table: every message class against every endpoint kind, with the specification's verdict. The endpoint under test is "a": a message may *)
+(* also CLAIM the endpoint's own identity (a validator keeps a loopback connection to itself, so this path exists) - signed by "a" or not. *)
 Kinds == {"gossip_in", "gossip_out", "val_in", "val_out"}
-ASSUME \A kind \in Kinds : \A m \in [key : {"b", "m", "o"}, sid : {1, 2}, genesis : Genesis, sig : {"b", "m", "o"}] :
+ASSUME \A kind \in Kinds : \A m \in [key : {"a", "b", "m", "o"}, sid : {1, 2}, genesis : Genesis, sig : {"a", "b", "m", "o"}] :
     PrintT(<<"CASE", ToJson([kind |-> kind, m |-> m, session |-> 1, genesis |-> "g", dialled |-> "b",
                              accept |-> Accepts(kind, 1, "g", "b", m), attributed |-> Attributed(m)])>>)
 VARIABLE x
